@@ -17,6 +17,9 @@ type Term struct {
 	T types.Type
 	// for string constants the Go value is kept (JSON type-state, fmt verbs)
 	Const *string
+	// static knowledge about integer values: 0 <= v < 2^Bits (Bits > 0) and v is a multiple of 2^Low
+	Bits int
+	Low  int
 }
 
 var (
@@ -163,6 +166,8 @@ type Registry struct {
 	typeIDs    map[string]int
 	typeByID   map[int]types.Type
 	ifaceAs    map[string]types.Type // interface type string -> pointer type it is modelled as
+	typeAs     map[string]types.Type // concrete (library) struct type -> ghost struct it is modelled as
+	unboxFns   map[string]bool
 	uninterp   []string              // declare-fun lines
 	axioms     []string
 	strConsts  map[string]string // go string value -> smt constant
@@ -171,7 +176,7 @@ type Registry struct {
 
 func newRegistry() *Registry {
 	r := &Registry{sorts: map[string]string{}, structs: map[string]*structInfo{}, ghost: map[string][]fieldInfo{},
-		inProgress: map[string]bool{}, typeIDs: map[string]int{}, typeByID: map[int]types.Type{}, ifaceAs: map[string]types.Type{}, strConsts: map[string]string{}}
+		inProgress: map[string]bool{}, typeIDs: map[string]int{}, typeByID: map[int]types.Type{}, ifaceAs: map[string]types.Type{}, typeAs: map[string]types.Type{}, unboxFns: map[string]bool{}, strConsts: map[string]string{}}
 	return r
 }
 
@@ -325,6 +330,9 @@ func (r *Registry) sortOf1(t types.Type, key string) string {
 	if as, ok := r.ifaceAs[key]; ok {
 		return r.SortOf(as)
 	}
+	if as, ok := r.typeAs[key]; ok {
+		return r.SortOf(as)
+	}
 	if n, ok := t.(*types.Named); ok {
 		if _, isStruct := n.Underlying().(*types.Struct); isStruct {
 			return r.structSort(n, key)
@@ -408,6 +416,9 @@ func (r *Registry) structSort(t types.Type, key string) string {
 	if _, ok := t.(*types.Named); !ok {
 		isRepo = true // anonymous struct
 	}
+	if n, ok := t.(*types.Named); ok && n.Obj().Pkg() != nil && n.Obj().Pkg().Path() == "ghost" {
+		isRepo = true
+	}
 	if isRepo {
 		for i := 0; i < st.NumFields(); i++ {
 			f := st.Field(i)
@@ -434,6 +445,9 @@ func (r *Registry) structSort(t types.Type, key string) string {
 }
 
 func (r *Registry) StructInfo(t types.Type) *structInfo {
+	if as, ok := r.typeAs[r.typeKey(t)]; ok {
+		return r.StructInfo(as)
+	}
 	r.SortOf(t)
 	if n, ok := t.(*types.Named); ok {
 		return r.structs[r.typeKey(n)]
@@ -451,6 +465,16 @@ func (r *Registry) Prelude() string {
 	for _, d := range r.uninterp {
 		b.WriteString(d)
 		b.WriteString("\n")
+	}
+	// dynamic type ids and the representation class of each (1 integer/float, 2 string, 3 byte slice, 4 other)
+	b.WriteString("(declare-fun tykind (Int) Int)\n")
+	ids := make([]int, 0, len(r.typeByID))
+	for id := range r.typeByID {
+		ids = append(ids, id)
+	}
+	sort.Ints(ids)
+	for _, id := range ids {
+		b.WriteString(fmt.Sprintf("(assert (= (tykind %d) %d))\n", id, tyKind(r.typeByID[id])))
 	}
 	return b.String()
 }
@@ -619,8 +643,30 @@ func (r *Registry) rangeFact(t Term, depth int) string {
 	case *types.Map:
 		s := r.SortOf(t.T)
 		return "(>= (size_" + s + " " + t.S + ") 0)"
+	case *types.Interface:
+		if r.SortOf(t.T) == "Any" {
+			x := t.S
+			return "(and (=> ((_ is any_int) " + x + ") (= (tykind (any_ty " + x + ")) 1)) (=> ((_ is any_str) " + x + ") (= (tykind (any_sty " + x + ")) 2)) (=> ((_ is any_bytes) " + x + ") (= (tykind (any_bty " + x + ")) 3)) (=> ((_ is any_other) " + x + ") (= (tykind (any_oty " + x + ")) 4)))"
+		}
 	}
 	return "true"
+}
+
+func tyKind(t types.Type) int {
+	switch u := t.Underlying().(type) {
+	case *types.Basic:
+		switch {
+		case u.Info()&types.IsInteger != 0, u.Info()&types.IsFloat != 0:
+			return 1
+		case u.Info()&types.IsString != 0:
+			return 2
+		}
+	case *types.Slice:
+		if b, ok := u.Elem().Underlying().(*types.Basic); ok && b.Kind() == types.Uint8 {
+			return 3
+		}
+	}
+	return 4
 }
 
 func sortedKeys(m map[string]string) []string {
